@@ -128,6 +128,17 @@ CHECKS = {
              'status as on the ssd/sdd/dsd/ddd of the same disc.',
         note='The sector-dump run is the reference (itself checked by C01/C02/C04/C14).  16-spt discs are compared '
              'at file/catalogue level only.  SKIPBITS semantics follow the HxC reference implementation.'),
+    'C06': dict(
+        category='fault_enumeration', design_ref='DESIGN.md section 2, C06',
+        technique='fault injection on recorded tracks with a truth oracle (CRC-collision-at-home excuse) and an independent bit-level scanner, run against the real decoders under ASan+UBSan; fingerprint attribution at image level',
+        text='A harness linked against the repository decoders receives valid FM/MFM tracks subjected to bit flips, cell '
+             'insertions/deletions, zeroed runs and truncation aimed at sync / ID mark / ID field / gap2 / data mark / data '
+             '/ CRC (incl. lost records and record+next-header double faults): every yielded sector must be CRC-valid in '
+             'the damaged stream at the home position of its address.  Arbitrary streams are judged by an independent '
+             'scanner that finds every CRC-valid ID and data field at every cell offset.  Damaged HFE v1/v3 and HxC MFM '
+             'images are read with the real dfs and every delivered sector is attributed by fingerprint.',
+        note='Data marks are recorded within the controller window of their ID.  CRC-16 collisions at home are counted '
+             'as benign, never reported.'),
 }
 
 PENDING_REASON = 'check not built yet in this revision of /verif (see DESIGN.md section 7 for the order of work)'
